@@ -6,8 +6,35 @@ RG = "datastructures/range.py"
 RS = "wrappers/response.py"
 UT = "utils.py"
 IN = "_internal.py"
+WS = "wsgi.py"
 
 _DATE_BLOCK = "    if modified_since and last_modified and last_modified <= modified_since:\n        unmodified = True\n\n"
+_ETAG_BLOCK = (
+    "    if etag:\n"
+    "        etag, _ = unquote_etag(etag)\n"
+    "\n"
+    "        if if_range is not None and if_range.etag is not None:\n"
+    "            unmodified = parse_etags(if_range.etag).contains(etag)\n"
+    "        else:\n"
+    "            if_none_match = parse_etags(http_if_none_match)\n"
+)
+
+
+def _etag_block_guard_clause(ret: str) -> str:
+    """the If-Range tag verdict as a guard clause that returns directly (rest of the block follows in a `if True:`-free
+    way: the else arm keeps its indentation under a new `if` on the negated condition)"""
+    return (
+        "    if etag:\n"
+        "        etag, _ = unquote_etag(etag)\n"
+        "\n"
+        "        if if_range is not None and if_range.etag is not None:\n"
+        f"            {ret}\n"
+        "        if if_range is None or if_range.etag is None:\n"
+        "            if_none_match = parse_etags(http_if_none_match)\n"
+    )
+
+
+_PE_APPEND = "        if is_weak:\n            weak.append(raw)\n        else:\n            strong.append(raw)\n"
 _RFL_TAIL = "        if http.is_byte_range_valid(start, end, length):\n            return start, min(end, length)\n        return None\n"
 
 MUTANTS = [
@@ -19,7 +46,12 @@ MUTANTS = [
     {"name": "wrapper-passes-wrong-header", "expect": "R11.1", "edits": [(HT, 'http_if_match=environ.get("HTTP_IF_MATCH"),', 'http_if_match=environ.get("HTTP_IF_NONE_MATCH"),')]},
     {"name": "parse-etags-lists-swapped", "expect": "R11.1", "edits": [(HT, "return ds.ETags(strong, weak)", "return ds.ETags(weak, strong)")]},
     {"name": "etag-compared-quoted", "expect": "R11.1", "edits": [(SH, "        etag, _ = unquote_etag(etag)\n", "        etag = etag.strip()\n")]},
+    {"name": "if-range-guard-clause-polarity-lost", "expect": "R11.1", "edits": [(SH, _ETAG_BLOCK, _etag_block_guard_clause("return parse_etags(if_range.etag).contains(etag)"))]},
+    {"name": "parse-etags-selector-inverted", "expect": "R11.1", "edits": [(HT, _PE_APPEND, "        tags = strong if is_weak else weak\n        tags.append(raw)\n")]},
+    {"name": "parse-etags-alias-not-reset", "expect": "R11.1", "edits": [(HT, "    strong = []\n    weak = []\n", "    strong = []\n    weak = []\n    tags = strong\n"), (HT, _PE_APPEND, "        if is_weak:\n            tags = weak\n        tags.append(raw)\n")]},
+    {"name": "parse-etags-weak-filed-before-flag", "expect": "R11.1", "edits": [(HT, "        is_weak, quoted, raw = match.groups()\n", "        weak.append(match.group(2))\n        is_weak, quoted, raw = match.groups()\n")]},
     # R11.2 precedence
+    {"name": "if-range-guard-clause-keeps-date-verdict", "expect": "R11.2", "edits": [(SH, _ETAG_BLOCK, _etag_block_guard_clause("return not (unmodified or parse_etags(if_range.etag).contains(etag))"))]},
     {"name": "if-none-match-or-date", "expect": "R11.2", "edits": [(SH, "unmodified = if_none_match.contains_weak(etag)", "unmodified = unmodified or if_none_match.contains_weak(etag)")]},
     {"name": "date-check-after-etag", "expect": "R11.2", "edits": [(SH, _DATE_BLOCK, ""), (SH, "    return not unmodified\n\n\n_cookie_re", _DATE_BLOCK + "    return not unmodified\n\n\n_cookie_re")]},
     {"name": "if-none-match-only-when-date-failed", "expect": "R11.2", "edits": [(SH, "            if if_none_match:\n", "            if if_none_match and not unmodified:\n")]},
@@ -50,9 +82,57 @@ MUTANTS = [
     {"name": "validity-checked-on-clamped-start", "expect": "R11.7", "edits": [(RG, "if http.is_byte_range_valid(start, end, length):", "if http.is_byte_range_valid(max(start, 0), end, length):")]},
     {"name": "suffix-applied-after-validation", "expect": "R11.7", "edits": [(RG, "        if end is None:\n            end = length\n            if start < 0:\n                start += length\n        if http.is_byte_range_valid(start, end, length):\n            return start, min(end, length)\n", "        if end is None:\n            end = length\n        if http.is_byte_range_valid(abs(start), end, length):\n            if start < 0:\n                start += length\n            return start, min(end, length)\n")]},
     {"name": "stop-not-clamped", "expect": "R11.7", "edits": [(RG, "return start, min(end, length)", "return start, end")]},
+    # the same defects in the generalised shapes
+    {"name": "date-verdict-expression-strict", "expect": "R11.3", "edits": [(SH, "    unmodified = False\n    if isinstance(last_modified, str):", "    if isinstance(last_modified, str):"), (SH, _DATE_BLOCK, "    unmodified = bool(\n        modified_since and last_modified and last_modified < modified_since\n    )\n\n")]},
+    {"name": "date-verdict-expression-inverted", "expect": "R11.3", "edits": [(SH, "    unmodified = False\n    if isinstance(last_modified, str):", "    if isinstance(last_modified, str):"), (SH, _DATE_BLOCK, "    unmodified = not (\n        modified_since and last_modified and last_modified <= modified_since\n    )\n\n")]},
+    {"name": "status-conditional-expression-swapped", "expect": "R11.4", "edits": [(RS, "                if parse_etags(environ.get(\"HTTP_IF_MATCH\")):\n                    self.status_code = 412\n                else:\n                    self.status_code = 304", "                if_match = parse_etags(environ.get(\"HTTP_IF_MATCH\"))\n                self.status_code = 304 if if_match else 412")]},
+    {"name": "range-tuple-unpacked-window-is-stop", "expect": "R11.5", "edits": [(RS, "        content_length = range_tuple[1] - range_tuple[0]\n", "        first, stop = range_tuple\n        content_length = stop - first\n"), (RS, "self._wrap_range_response(range_tuple[0], content_length)", "self._wrap_range_response(first, stop)")]},
+    {"name": "content-range-unpacked-last-is-stop", "expect": "R11.5", "edits": [(RG, "        range = self.range_for_length(length)\n        if range is not None:\n            return f\"{self.units} {range[0]}-{range[1] - 1}/{length}\"\n        return None\n", "        range = self.range_for_length(length)\n        if range is None:\n            return None\n        first, stop = range\n        return f\"{self.units} {first}-{stop}/{length}\"\n")]},
+    {"name": "range-for-length-conditional-unchecked-start", "expect": "R11.7", "edits": [(RG, _RFL_TAIL, "        return (start, min(end, length)) if http.is_byte_range_valid(abs(start), end, length) else None\n")]},
+    {"name": "dt-as-utc-conditional-relabels-aware", "expect": "R11.3", "edits": [(IN, "    if dt.tzinfo is None:\n        return dt.replace(tzinfo=timezone.utc)\n    elif dt.tzinfo != timezone.utc:\n        return dt.astimezone(timezone.utc)\n\n    return dt\n", "    return dt.astimezone(timezone.utc) if dt.tzinfo is None else dt.replace(tzinfo=timezone.utc)\n")]},
+    {"name": "etags-contains-conditional-loses-star", "expect": "R11.1", "edits": [(ET, "        if self.star_tag:\n            return True\n        return self.is_strong(etag)", "        return False if self.star_tag else self.is_strong(etag)")]},
+    {"name": "wrap-inlined-only-for-large-windows", "expect": "R11.5", "edits": [(RS, "        self._wrap_range_response(range_tuple[0], content_length)\n", "        if content_length > 1:\n            self.response = _RangeWrapper(self.response, range_tuple[0], content_length)  # type: ignore\n")]},
+    {"name": "wrap-inlined-window-from-zero", "expect": "R11.5", "edits": [(RS, "        self._wrap_range_response(range_tuple[0], content_length)\n", "        self.response = _RangeWrapper(self.response, 0, content_length)  # type: ignore\n")]},
+    {"name": "not-modified-local-polarity-lost", "expect": "R11.4", "edits": [(RS, "            if not is206 and not is_resource_modified(\n                environ,\n                self.headers.get(\"etag\"),\n                None,\n                self.headers.get(\"last-modified\"),\n            ):\n", "            changed = is_resource_modified(\n                environ,\n                self.headers.get(\"etag\"),\n                None,\n                self.headers.get(\"last-modified\"),\n            )\n            if changed and not is206:\n")]},
+    {"name": "processable-local-polarity-lost", "expect": "R11.4", "edits": [(RS, "        return (\n            \"HTTP_IF_RANGE\" not in environ\n            or not is_resource_modified(\n                environ,\n                self.headers.get(\"etag\"),\n                None,\n                self.headers.get(\"last-modified\"),\n                ignore_if_range=False,\n            )\n        ) and \"HTTP_RANGE\" in environ\n", "        if \"HTTP_RANGE\" not in environ:\n            return False\n        if \"HTTP_IF_RANGE\" not in environ:\n            return True\n        changed = is_resource_modified(\n            environ,\n            self.headers.get(\"etag\"),\n            None,\n            self.headers.get(\"last-modified\"),\n            ignore_if_range=False,\n        )\n        return changed\n")]},
+    {"name": "etags-union-without-star", "expect": "R11.1", "edits": [(ET, "return self.is_weak(etag) or self.contains(etag)", "return etag in (self._weak | self._strong)")]},
+    {"name": "wrapper-local-holds-wrong-header", "expect": "R11.1", "edits": [(HT, "    return _sansio_http.is_resource_modified(\n        http_range=environ.get(\"HTTP_RANGE\"),\n        http_if_range=environ.get(\"HTTP_IF_RANGE\"),", "    if_range = environ.get(\"HTTP_IF_MODIFIED_SINCE\")\n    return _sansio_http.is_resource_modified(\n        http_range=environ.get(\"HTTP_RANGE\"),\n        http_if_range=if_range,")]},
+    # R11.8 counter stays absolute across the seek
+    {"name": "range-wrapper-counter-not-rebased", "expect": "R11.8", "edits": [(WS, "            self.read_length = self.iterable.tell()  # type: ignore\n            contextual_read_length = self.read_length\n", "            contextual_read_length = self.start_byte\n")]},
+    {"name": "range-wrapper-counter-rebased-on-one-branch", "expect": "R11.8", "edits": [(WS, "            self.read_length = self.iterable.tell()  # type: ignore\n            contextual_read_length = self.read_length\n", "            contextual_read_length = self.iterable.tell()\n            if not contextual_read_length:\n                self.read_length = contextual_read_length\n")]},
 ]
 
 TWINS = [
+    {"name": "if-range-tag-through-local", "edits": [(SH, "        if if_range is not None and if_range.etag is not None:\n            unmodified = parse_etags(if_range.etag).contains(etag)\n", "        range_tag = if_range.etag if if_range is not None else None\n        if range_tag is not None:\n            unmodified = parse_etags(range_tag).contains(etag)\n")]},
+    {"name": "wrapper-reads-header-into-local", "edits": [(HT, "    return _sansio_http.is_resource_modified(\n        http_range=environ.get(\"HTTP_RANGE\"),\n        http_if_range=environ.get(\"HTTP_IF_RANGE\"),", "    if_range = environ.get(\"HTTP_IF_RANGE\")\n    return _sansio_http.is_resource_modified(\n        http_range=environ.get(\"HTTP_RANGE\"),\n        http_if_range=if_range,")]},
+    {"name": "not-modified-hoisted-into-local", "edits": [(RS, "            if not is206 and not is_resource_modified(\n                environ,\n                self.headers.get(\"etag\"),\n                None,\n                self.headers.get(\"last-modified\"),\n            ):\n", "            unchanged = not is_resource_modified(\n                environ,\n                self.headers.get(\"etag\"),\n                None,\n                self.headers.get(\"last-modified\"),\n            )\n            if unchanged and not is206:\n")]},
+    {"name": "processable-through-local", "edits": [(RS, "        return (\n            \"HTTP_IF_RANGE\" not in environ\n            or not is_resource_modified(\n                environ,\n                self.headers.get(\"etag\"),\n                None,\n                self.headers.get(\"last-modified\"),\n                ignore_if_range=False,\n            )\n        ) and \"HTTP_RANGE\" in environ\n", "        if \"HTTP_RANGE\" not in environ:\n            return False\n        if \"HTTP_IF_RANGE\" not in environ:\n            return True\n        changed = is_resource_modified(\n            environ,\n            self.headers.get(\"etag\"),\n            None,\n            self.headers.get(\"last-modified\"),\n            ignore_if_range=False,\n        )\n        return not changed\n")]},
+    {"name": "range-for-length-suffix-as-expression", "edits": [(RG, "            if start < 0:\n                start += length\n", "            start = start + length if start < 0 else start\n")]},
+    {"name": "etags-contains-weak-on-union", "edits": [(ET, "return self.is_weak(etag) or self.contains(etag)", "return self.star_tag or etag in (self._weak | self._strong)")]},
+    {"name": "wrap-inlined-before-status", "edits": [(RS, "        self.status_code = 206\n        self._wrap_range_response(range_tuple[0], content_length)\n", "        self.response = _RangeWrapper(self.response, range_tuple[0], content_length)  # type: ignore\n        self.status_code = 206\n")]},
+    {"name": "wrap-helper-inlined", "edits": [(RS, "        self._wrap_range_response(range_tuple[0], content_length)\n", "        self.response = _RangeWrapper(self.response, range_tuple[0], content_length)  # type: ignore\n")]},
+    {"name": "content-length-through-header-property", "edits": [(RS, "        self.headers[\"Content-Length\"] = str(content_length)\n", "        self.content_length = content_length\n")]},
+    # shapes the rules were generalised for (conditional expressions, tuple unpacking, walrus, flag-from-expression)
+    {"name": "date-verdict-from-boolean-expression", "edits": [(SH, "    unmodified = False\n    if isinstance(last_modified, str):", "    if isinstance(last_modified, str):"), (SH, _DATE_BLOCK, "    unmodified = bool(\n        modified_since and last_modified and last_modified <= modified_since\n    )\n\n")]},
+    {"name": "date-verdict-de-morgan", "edits": [(SH, "    unmodified = False\n    if isinstance(last_modified, str):", "    if isinstance(last_modified, str):"), (SH, _DATE_BLOCK, "    unmodified = not (\n        not modified_since or not last_modified or last_modified > modified_since\n    )\n\n")]},
+    {"name": "if-none-match-walrus", "edits": [(SH, "            if_none_match = parse_etags(http_if_none_match)\n            if if_none_match:\n", "            if if_none_match := parse_etags(http_if_none_match):\n")]},
+    {"name": "unquote-etag-subscript", "edits": [(SH, "        etag, _ = unquote_etag(etag)\n", "        etag = unquote_etag(etag)[0]\n")]},
+    {"name": "status-conditional-expression", "edits": [(RS, "                if parse_etags(environ.get(\"HTTP_IF_MATCH\")):\n                    self.status_code = 412\n                else:\n                    self.status_code = 304", "                if_match = parse_etags(environ.get(\"HTTP_IF_MATCH\"))\n                self.status_code = 304 if not if_match else 412")]},
+    {"name": "method-local", "edits": [(RS, "        if environ[\"REQUEST_METHOD\"] in (\"GET\", \"HEAD\"):\n            # if the date", "        method = environ[\"REQUEST_METHOD\"]\n        if method in (\"GET\", \"HEAD\"):\n            # if the date")]},
+    {"name": "range-tuple-unpacked", "edits": [(RS, "        content_length = range_tuple[1] - range_tuple[0]\n", "        first, stop = range_tuple\n        content_length = stop - first\n"), (RS, "self._wrap_range_response(range_tuple[0], content_length)", "self._wrap_range_response(first, content_length)")]},
+    {"name": "content-range-unpacked-conditional", "edits": [(RG, "        range = self.range_for_length(length)\n        if range is not None:\n            return f\"{self.units} {range[0]}-{range[1] - 1}/{length}\"\n        return None\n", "        range = self.range_for_length(length)\n        if range is None:\n            return None\n        first, stop = range\n        return f\"{self.units} {first}-{stop - 1}/{length}\"\n")]},
+    {"name": "content-range-conditional-expression", "edits": [(RG, "        if range is not None:\n            return f\"{self.units} {range[0]}-{range[1] - 1}/{length}\"\n        return None\n", "        return None if range is None else f\"{self.units} {range[0]}-{range[1] - 1}/{length}\"\n")]},
+    {"name": "range-for-length-conditional-expression", "edits": [(RG, _RFL_TAIL, "        return (start, min(end, length)) if http.is_byte_range_valid(start, end, length) else None\n")]},
+    {"name": "dt-as-utc-conditional-expression", "edits": [(IN, "    if dt.tzinfo is None:\n        return dt.replace(tzinfo=timezone.utc)\n    elif dt.tzinfo != timezone.utc:\n        return dt.astimezone(timezone.utc)\n\n    return dt\n", "    return dt.replace(tzinfo=timezone.utc) if dt.tzinfo is None else dt.astimezone(timezone.utc)\n")]},
+    {"name": "etags-contains-conditional-expression", "edits": [(ET, "        if self.star_tag:\n            return True\n        return self.is_strong(etag)", "        return True if self.star_tag else self.is_strong(etag)")]},
+    {"name": "range-wrapper-position-local", "edits": [(WS, "            self.read_length = self.iterable.tell()  # type: ignore\n            contextual_read_length = self.read_length\n", "            position = self.iterable.tell()\n            self.read_length = position\n            contextual_read_length = position\n")]},
+    {"name": "range-wrapper-sync-helper", "edits": [(WS, "    def _first_iteration(self)", "    def _sync_position(self) -> None:\n        self.read_length = self.iterable.tell()  # type: ignore\n\n    def _first_iteration(self)"), (WS, "            self.read_length = self.iterable.tell()  # type: ignore\n            contextual_read_length = self.read_length\n", "            self._sync_position()\n            contextual_read_length = self.read_length\n")]},
+    {"name": "if-range-tag-guard-clause-returns", "edits": [(SH, _ETAG_BLOCK, _etag_block_guard_clause("return not parse_etags(if_range.etag).contains(etag)"))]},
+    {"name": "parse-etags-list-selected-by-flag", "edits": [(HT, _PE_APPEND, "        tags = weak if is_weak else strong\n        tags.append(raw)\n")]},
+    {"name": "parse-etags-receiver-is-conditional", "edits": [(HT, _PE_APPEND, "        (strong if not is_weak else weak).append(raw)\n")]},
+    {"name": "parse-etags-default-strong-alias", "edits": [(HT, _PE_APPEND, "        tags = strong\n        if is_weak:\n            tags = weak\n        tags.append(raw)\n")]},
+    {"name": "parse-etags-flag-tested-for-none", "edits": [(HT, _PE_APPEND, "        if is_weak is None:\n            strong.append(raw)\n            pos = match.end()\n            continue\n        weak.append(raw)\n")]},
+    {"name": "parse-etags-group-accessors", "edits": [(HT, "        is_weak, quoted, raw = match.groups()\n", "        is_weak = match.group(1)\n        quoted = match.group(2)\n        raw = match.group(3)\n")]},
     {"name": "normalisation-helper-extracted", "edits": [(SH, "def is_resource_modified(\n", "def _http_instant(dt: datetime) -> datetime:\n    return _dt_as_utc(dt.replace(microsecond=0))\n\n\ndef is_resource_modified(\n"), (SH, "        last_modified = _dt_as_utc(last_modified.replace(microsecond=0))\n", "        last_modified = _http_instant(last_modified)\n")]},
     {"name": "satisfiability-helper-extracted", "edits": [(RG, "class Range:\n", "def _satisfiable(first: int, stop: int, size: int) -> bool:\n    return http.is_byte_range_valid(first, stop, size)\n\n\nclass Range:\n"), (RG, "if http.is_byte_range_valid(start, end, length):", "if _satisfiable(start, end, length):")]},
     {"name": "range-for-length-early-return", "edits": [(RG, _RFL_TAIL, "        if not http.is_byte_range_valid(start, end, length):\n            return None\n        return start, min(end, length)\n")]},
